@@ -46,6 +46,13 @@ func parseOp(nk int, s string) (op, bool) {
 	if s == "c" {
 		return op{kind: opClose}, true
 	}
+	if len(s) == 3 && s[0] == 'L' && (s[2] == 'g' || s[2] == 'b' || s[2] == 'e') {
+		k, ok := digit(s[1])
+		if !ok || k >= nk {
+			return op{}, false
+		}
+		return op{kind: opLog, key: k, ok: true, variant: s[2]}, true
+	}
 	if len(s) == 3 && s[0] == 'O' && (s[2] == 'o' || s[2] == 'f') {
 		k, ok := digit(s[1])
 		if !ok || k >= nk {
@@ -85,7 +92,7 @@ func parseCase(line string) (nk int, progs [][]op, sched []int, mode int, ok boo
 		sep := ch == ',' || ch == ';' || ch == '-' || (ch >= '0' && ch <= '9')
 		switch mode {
 		case modeWriters:
-			if !(sep || ch == 'O' || ch == 'c' || ch == 'o' || ch == 'f') {
+			if !(sep || ch == 'O' || ch == 'c' || ch == 'o' || ch == 'f' || ch == 'L' || ch == 'g' || ch == 'b' || ch == 'e') {
 				return
 			}
 		case modeHosts:
@@ -93,7 +100,7 @@ func parseCase(line string) (nk int, progs [][]op, sched []int, mode int, ok boo
 				return
 			}
 		default:
-			if ch == 'O' || ch == 'c' || ch == 'P' {
+			if ch == 'O' || ch == 'c' || ch == 'P' || ch == 'L' {
 				return
 			}
 		}
@@ -204,7 +211,7 @@ func (prop) Run(line string) core.Outcome {
 		}
 		obs := c.observe()
 		o.step(t.id, r, obs)
-		if mode == modeWriters && r.op.kind == opOpen && r.opDone && o.tainted == "" {
+		if mode == modeWriters && (r.op.kind == opOpen || r.op.kind == opLog) && r.opDone && o.tainted == "" {
 			// writerKeys = exactly the keys of the references the config holds, oldest first
 			got := t.logging.VerifWriterKeys()
 			same := len(got) == len(o.held[t.id])
